@@ -10,7 +10,11 @@ Per case (constructor + parameters):
 from_substrings / from_finite_language: (b) + validity (+ (c) for from_finite_language), and additionally an all-words
 comparison (proved comparators of property 0) with the obvious NFA / trie built by this module.
 from_substring / from_suffix: additionally (a') against the mirror model of the code itself (KMP failure table and
-transition loop, coq/Model/KMP.v, proved equal to the specification model): validity, dfa_diff, exact table."""
+transition loop, coq/Model/KMP.v, proved equal to the specification model): validity, dfa_diff, exact table.
+from_finite_language: additionally against the mirror model of the Mihov-Schulz construction (coq/Model/FiniteLang.v, driver
+op 14; C15_from_finite_language_lang / _minimal): same refusal (a word with a symbol outside the alphabet), dfa_diff, and - after
+renaming the implementation's states (prefix strings, trap 0) to the model's numbers through the model's list of state
+names - the exact transition table (the state that survives a merge is fixed by the sorted order of the words)."""
 from __future__ import annotations
 
 import itertools
@@ -32,7 +36,7 @@ SINK = object()
 # driver op codes (coq/Model/D15.v)
 OPS = {"from_prefix": 1, "from_suffix": 2, "from_substring": 3, "from_subsequence": 4, "of_length": 5,
        "count_mod": 6, "nth_from_start": 7, "nth_from_end": 8, "universal_language": 9, "empty_language": 10}
-OP_KMP, OP_KMP_TABLE, OP_AC = 11, 12, 13
+OP_KMP, OP_KMP_TABLE, OP_AC, OP_FL = 11, 12, 13, 14
 PROMISED_MINIMAL = {"from_prefix", "from_suffix", "from_substring", "from_subsequence", "of_length",
                     "nth_from_start", "nth_from_end", "from_finite_language", "universal_language", "empty_language"}
 
@@ -299,7 +303,7 @@ class Runner:
         ctx = self.ctx
         prepared, reqs = [], []
         for c in cases:
-            sy = enc.SymMap(c.sigma, extra=c.kw.get("s", "") + "".join(c.kw.get("pats", ())))
+            sy = enc.SymMap(c.sigma, extra=c.kw.get("s", "") + "".join(c.kw.get("pats", ())) + "".join(c.kw.get("lang", ())))
             r = outcome(c.call)
             K = word_bound(c.sigma, ctx.tier)
             info = {"case": c, "sy": sy, "r": r, "K": K, "slots": {}}
@@ -321,6 +325,12 @@ class Runner:
                 info["pat_order"] = order
                 ap = [list(range(sy.n)), [sy.word(p) for p in order], c.kw["contains"], c.kw["must_be_suffix"]]
                 reqs.append((15, OP_AC, enc.tree([ap, [] if timpl is None else [timpl]])))
+            if c.kind == "from_finite_language":
+                # the mirror model of the Mihov-Schulz construction (coq/Model/FiniteLang.v, driver op 14); the words go in
+                # the iteration order of the set (the model sorts them as the code does)
+                info["slots"]["fl"] = len(reqs)
+                fp = [list(range(sy.n)), [sy.word(w) for w in c.kw["lang"]], c.kw["as_partial"]]
+                reqs.append((15, OP_FL, enc.tree([fp, [] if timpl is None else [timpl]])))
             if c.kind in ("from_substring", "from_suffix"):
                 # the mirror model of the code itself (KMP table + transition loop, coq/Model/KMP.v, driver op 11)
                 info["slots"]["kmp"] = len(reqs)
@@ -359,6 +369,17 @@ class Runner:
             ctx.case(c.key(), False)
             if r[0] != "err" or r[1] != model[1]:
                 self.violation(f"{fam}:refusal", f"{c.kind}{c.kw}: expected refusal with code {model[1]}, implementation gave {r[:1] + r[2:] if r[0] == 'err' else 'a DFA'}", rp)
+            return
+        flm = enc.dec_res(ans["fl"][0]) if "fl" in ans else None
+        if flm is not None and flm[0] == "err":
+            # the mirror model of from_finite_language refuses (validate(): a word has a symbol outside the alphabet):
+            # the implementation must refuse with the same kind of exception
+            ctx.tally("refusal")
+            ctx.tally("fl_mirror_refusal")
+            ctx.case(c.key(), False)
+            if r[0] != "err" or r[1] != flm[1]:
+                self.violation(f"{fam}:refusal", f"{c.kind}{c.kw}: the mirror model refuses with code {flm[1]}, implementation gave "
+                               f"{r[:1] + r[2:] if r[0] == 'err' else 'a DFA'}", dict(rp, correspondence="C15/fl-mirror"))
             return
         if r[0] == "err":
             ctx.case(c.key(), False)
@@ -470,6 +491,36 @@ class Runner:
                         ctx.tally("ac_mirror_table_differs_language_equal")
                     elif info["canonical"]:
                         ctx.tally("ac_mirror_table_identical")
+        # ---- against the mirror model of the Mihov-Schulz construction ----
+        if flm is not None:
+            ctx.tally("fl_mirror_compared")
+            fdiff = enc.dec_res(ans["fl"][1][1])
+            names = enc.dec_res(ans["fl"][2])
+            if fdiff[0] != "ok" or names[0] != "ok":
+                self.violation(f"{fam}:comparator", f"{c.kind}: comparator / state names failed {fdiff} {names}", rp, confirmed=False)
+            elif fdiff[1]:
+                w = sy.unword(fdiff[1][0])
+                got, want = d.accepts_input(w), c.pred(w)
+                if got != want:
+                    problems.append(("language", f"accepts_input({w!r}) = {got}, the specified predicate gives {want}"))
+                else:
+                    self.violation(f"{fam}:fl-mirror-vs-impl-unconfirmed",
+                                   f"{c.kind}{c.kw}: comparator reports word {w!r} against the mirror model of the construction "
+                                   "but implementation and predicate agree on it (model problem; Coq: "
+                                   "C15_from_finite_language_lang)", dict(rp, correspondence="C15/fl-mirror"), confirmed=False)
+            else:
+                # exact table: the implementation's states are prefix strings (and the trap 0 / the single state 0 of
+                # empty_language); the model says which prefix its i-th state is
+                number = {tuple(wd): i for i, wd in enumerate(names[1])}
+                sm = lambda q: number.get(tuple(sy.word(q)), -1) if isinstance(q, str) else len(number)
+                img = [sm(q) for q in enc.dfa_names(d)]
+                same = (min(img, default=0) >= 0 and len(set(img)) == len(img)
+                        and enc.tree(canon_dfa_tree(flm[1])) == enc.tree(enc.enc_dfa(d, sm, sy)))
+                if same:
+                    ctx.tally("fl_mirror_table_identical")
+                else:
+                    ctx.structural += 1
+                    ctx.tally("fl_mirror_table_differs_language_equal")
         if not valid_impl:
             problems.append(("valid", "result does not satisfy the DFA validity rules"))
         # ---- (b) predicate level ----
@@ -739,6 +790,15 @@ def run(ctx):
         lang = rand_language(rng, sigma)
         for ap in (True, False):
             cases.append(Case("from_finite_language", sigma, lang=lang, as_partial=ap))
+    # languages with a word that has a symbol outside the alphabet: refused by validate() (InvalidSymbolError), as the mirror model
+    for _ in range(ctx.n(12, 150)):
+        sigma = rng.choice(["a", "ab", "bc"])
+        lang = set(rand_language(rng, sigma))
+        base = rng.choice(sorted(lang))
+        j = rng.randint(0, len(base))
+        lang.add(base[:j] + rng.choice("ayz".replace("a", "" if "a" in sigma else "a")) + base[j:][:2])
+        for ap in (True, False):
+            cases.append(Case("from_finite_language", sigma, lang=frozenset(lang), as_partial=ap))
     if thorough:
         # exhaustive: every set of 1-2 non-empty patterns of length <= 2 over {a,b}; every language of <= 2 words of length <= 2
         pool = [p for p in patterns("ab", 2) if p]
